@@ -86,6 +86,13 @@ def make_app():
     inner2 = Application([Route('/x', mk('answer')), ('/_stats', create_stats_app())], middlewares=[StatsMiddleware()])
     routes.append(('/v/sub', inner2))
     table.append(('/v/sub/x', None, 'answer'))
+    # one application embedded under two prefixes, and one Route object listed in two embedded applications: the same
+    # unbound route bound twice, with different resulting patterns - the report keeps them apart (round 14)
+    twice = Application([Route('/x', mk('answer')), Route('/y', mk('raise403'))])
+    shared = Route('/s', mk('created'))
+    routes += [('/m1', twice), ('/m2', twice), ('/n1', Application([shared])), ('/n2', Application([shared, Route('/t', mk('answer'))]))]
+    table += [(m + '/x', None, 'answer') for m in ('/m1', '/m2')] + [(m + '/y', None, 'raise403') for m in ('/m1', '/m2')]
+    table += [('/n1/s', None, 'created'), ('/n2/s', None, 'created'), ('/n2/t', None, 'answer')]
     app = Application(routes + [('/_stats', create_stats_app())], middlewares=[mw])
     return app, table
 
@@ -393,17 +400,47 @@ def run_burst(spec, ctx):
             ctx.classify_exc(e, case, 'burst')
 
 
+MOUNT_PATHS = ['/m1/x', '/m2/x', '/m1/y', '/m2/y', '/n1/s', '/n2/s', '/n2/t']
+
+
+def run_mounts(spec, ctx):
+    """complete family: the doubly-bound routes requested in every order of first contact (which binding is seen first in
+    an epoch must not matter), different multiplicities, a read, a reset, the opposite order, a read (through either mount)"""
+    import itertools
+    cases = []
+    for a, b in itertools.permutations(MOUNT_PATHS, 2):
+        for na, nb in ((1, 1), (2, 3)):
+            for mount in ('outer', 'inner'):
+                steps = [['req', a, 'GET']] * na + [['req', b, 'GET']] * nb + [['req', a, 'HEAD']] + [['read', mount], ['reset', mount]]
+                steps += [['req', b, 'GET']] * na + [['req', a, 'GET']] * nb + [['read', mount]]
+                steps += [['req', p, 'GET'] for p in MOUNT_PATHS] + [['reset', 'outer']] + [['req', p, 'GET'] for p in reversed(MOUNT_PATHS)]
+                cases.append(['stats', [list(x) for x in steps]])
+
+    def body(case, ctx):
+        ctx.current = case
+        sim = StatsSim(ctx)
+        for op in case[1]:
+            sim.step(op)
+        sim.step(['read'])
+        ctx.event('A-double-mount')
+        ctx.nt(case, sample=False)
+    ctx.loop(cases, body, kind='stats', max_sigs=6)
+
+
 def shards(tier, seed):
     q = tier == 'quick'
     out = [{'part': 'A', 'n': 25 if q else 600, 'steps': 40} for _ in range(8)]
     out += [{'part': 'B', 'n': 60 if q else 6000, 'steps': 30 if q else 50} for _ in range(7)]
     out.append({'part': 'burst', 'reps': 1 if q else 12})
+    out.append({'part': 'mounts'})
     return out
 
 
 def run_shard(spec, ctx):
     if spec['part'] == 'burst':
         run_burst(spec, ctx)
+    elif spec['part'] == 'mounts':
+        run_mounts(spec, ctx)
     elif spec['part'] == 'A':
         ctx.machine(stats_machine(), spec['n'], spec['steps'], kind='stats')
     else:
